@@ -18,7 +18,7 @@ Reading used here.
 * Lossy fields, per format (`fieldEq`):
     proto   `UserAllocations` is not compared (transient, reserved field 5 of the .proto);
             `ExpireAt` is compared in whole seconds, where the two "never expires" values of
-            `Pin.ExpiredAt` (zero time, unix 0) and second 0 are one value;
+            `Pin.ExpiredAt` (zero time, unix 0), second 0 and the second of the zero time are one value;
     query   `Metadata` is compared without the entry for the empty key ("meta-" + "" is
             skipped by ToQuery and FromQuery; PinOptions.Equals ignores it);
     msgpack, json   nothing.
@@ -48,15 +48,12 @@ def tokElems (tok : String) : List String :=
   if tok == "-" then [] else
   (tok.splitOn ",").map fun e => match e.splitOn ":" with | [_, v] => v | _ => e
 
-def parseTime (tok : String) : Option Time :=
-  if !tok.startsWith "t" then none else
-  match (tok.drop 1).toString.splitOn "." with
-  | [s, n] => do let sec ← s.toInt?; let ns ← n.toNat?; pure ⟨sec, ns⟩
-  | _ => none
-
 /-- an expiry as the stored form can hold it: whole seconds, `none` = never -/
+def expiryKey (t : Time) : Option Int := if t.noExpiry || t.sec == 0 || t.sec == Time.zero.sec then none else some t.sec
+
+/-- the same on a dumped token -/
 def expirySeconds (tok : String) : Option (Option Int) :=
-  (parseTime tok).map fun t => if t.noExpiry || t.sec == 0 then none else some t.sec
+  (parseTime tok).map expiryKey
 
 /-- metadata entries without the one for the empty key -/
 def metaNoEmptyKey (tok : String) : List String :=
@@ -75,6 +72,30 @@ def dumpEq (f : Fmt) : KVs → KVs → Bool
   | [], [] => true
   | (p, a) :: xs, (q, b) :: ys => p == q && fieldEq f p a b && dumpEq f xs ys
   | _, _ => false
+
+/-! ## the same comparison on typed pins (what the theorems of Props/C08 are about) -/
+
+def metaNonEmpty (m : List (String × String)) : List (String × String) := m.filter fun kv => kv.1 != emptyStr
+
+/-- equality of pin options after a round trip through format `f`, with the documented lossy fields -/
+def optsSame (f : Fmt) (a b : PinOptions) : Bool :=
+  a.rmin == b.rmin && a.rmax == b.rmax && a.name == b.name && a.mode == b.mode && a.shardSize == b.shardSize &&
+  (f == .proto || a.userAllocs == b.userAllocs) &&
+  (if f == .proto then expiryKey a.expireAt == expiryKey b.expireAt else a.expireAt == b.expireAt) &&
+  (if f == .query then metaNonEmpty a.metadata == metaNonEmpty b.metadata else a.metadata == b.metadata) &&
+  a.pinUpdate == b.pinUpdate && a.origins == b.origins
+
+def pinSame (f : Fmt) (a b : Pin) : Bool :=
+  a.cid == b.cid && a.type == b.type && a.allocs == b.allocs && a.maxDepth == b.maxDepth && a.reference == b.reference &&
+  optsSame f a.opts b.opts
+
+/-- the typed comparison applied to dumps of pins and pin options (other records: nothing to add to `dumpEq`) -/
+def typedSame (rec : String) (f : Fmt) (inp out : KVs) : Bool :=
+  if rec == "Pin" then
+    match parsePin inp "", parsePin out "" with | some a, some b => pinSame f a b | _, _ => false
+  else if rec == "PinOptions" then
+    match parseOpts inp "", parseOpts out "" with | some a, some b => optsSame f a b | _, _ => false
+  else true
 
 /-! ## well-formedness -/
 
@@ -120,7 +141,7 @@ def rtClauseName : Fmt → String
 
 /-- one round-trip case: record, format, dump of the value, status of the real encode→decode, dump of the result -/
 def rtClauses (rec : String) (f : Fmt) (inp : KVs) (status : String) (out : KVs) : List (String × Bool) :=
-  [ (rtClauseName f, !wfRt rec inp || (status == "ok" && dumpEq f inp out)),
+  [ (rtClauseName f, !wfRt rec inp || (status == "ok" && dumpEq f inp out && typedSame rec f inp out)),
     ("no_crash", !panics.contains status) ]
 
 def knownStatusFilter (st : Nat) : Bool := st &&& statusMask == st
@@ -140,7 +161,6 @@ def fuzzClauses (outcome : String) : List (String × Bool) :=
 
 /-! ### the callers' own equality -/
 
-def metaNonEmpty (m : List (String × String)) : List (String × String) := m.filter fun kv => kv.1 != emptyStr
 def sameSet (a b : List Origin) : Bool := (a.all fun o => b.any fun o' => o.tok == o'.tok) && (b.all fun o => a.any fun o' => o.tok == o'.tok)
 
 /-- everything `Equals` may not overlook: equal up to list order, origins up to order and repeats,
